@@ -274,12 +274,32 @@ type batchOut struct {
 
 var panicRe = regexp.MustCompile(`(?m)^(panic: .*|fatal error: .*)$`)
 
+// crashSig extracts the panic message and the top frame of the panicking
+// goroutine that lies in kubegateway (signature) or in the harness itself.
 func crashSig(stderr string) (string, string) {
 	msg := "worker died"
-	if m := panicRe.FindString(stderr); m != "" {
-		msg = m
+	loc := panicRe.FindStringIndex(stderr)
+	if loc == nil {
+		return msg, "unknown"
 	}
-	return msg, sim.TopRepoFrame(stderr)
+	msg = stderr[loc[0]:loc[1]]
+	rest := stderr[loc[1]:]
+	// the panicking goroutine is the first goroutine block after the message
+	if i := strings.Index(rest, "\ngoroutine "); i >= 0 {
+		rest = rest[i+1:]
+		if j := strings.Index(rest, "\n\n"); j >= 0 {
+			rest = rest[:j]
+		}
+	}
+	for _, l := range strings.Split(rest, "\n") {
+		if strings.HasPrefix(l, "kgsim/") {
+			return msg, "HARNESS:" + strings.SplitN(l, "(", 2)[0]
+		}
+		if strings.HasPrefix(l, "github.com/kubewharf/kubegateway/") || strings.HasPrefix(l, "github.com/zoumo/golib") {
+			return msg, sim.TopRepoFrame(rest)
+		}
+	}
+	return msg, sim.TopRepoFrame(rest)
 }
 
 func runBatch(bi *buildInfo, chk *meta.Check, b meta.Batch, n int, batchSeed uint64, opts map[string]string) batchOut {
@@ -458,9 +478,15 @@ func doCheck(chk *meta.Check, tier string, seed uint64, runsOverride int, onlyBa
 		}
 	}
 	code := 0
+	harnessCrash := false
 	known := map[string]int{}
 	var unknown []vio
 	for _, v := range vios {
+		if v.res.Violation.Class == "crash" && strings.HasPrefix(v.res.Violation.Sig, "HARNESS:") {
+			fmt.Fprintf(os.Stderr, "kgcheck: HARNESS CRASH (not a verdict): idx=%d seed=%d %s\n%s\n", v.res.Idx, v.res.Seed, v.res.Violation.Sig, tail(v.res.Violation.Msg, 25))
+			harnessCrash = true
+			continue
+		}
 		if f := matchFinding(ff, chk.ID, v.res.Violation); f != nil {
 			known[f.ID+"\x00"+f.Property+"\x00"+f.Text]++
 			continue
@@ -535,6 +561,9 @@ func doCheck(chk *meta.Check, tier string, seed uint64, runsOverride int, onlyBa
 			code = 1
 		}
 		ev.Violations = len(unknown)
+	}
+	if harnessCrash && code == 0 {
+		code = 2
 	}
 	if len(hung) > 0 {
 		for _, h := range hung {
